@@ -23,6 +23,7 @@ import "fmt"
 import "bytes"
 import "encoding/json"
 import "sort"
+import "github.com/pbenner/autodiff/verifhook"
 /* vector type declaration
  * -------------------------------------------------------------------------- */
 type SparseConstInt32Vector struct {
@@ -398,6 +399,7 @@ func (obj *SparseConstInt32VectorJointIterator) Next() {
   // skip positions where all operands are zero; stop when all
   // iterators are exhausted
   for obj.next() && !obj.Ok() {
+    verifhook.Tick("sparseconst.joint")
   }
 }
 func (obj *SparseConstInt32VectorJointIterator) next() bool {
